@@ -84,8 +84,11 @@ class Runner:
         node = self.nodes.get(src)
         if node is None:
             node = self.nodes[src] = self.parse(src, "c13")
-        for k, i in binds.items():
-            self.env.put(k, self.fresh(i))
+        try:
+            for k, i in binds.items():
+                self.env.put(k, self.fresh(i))
+        except BaseException as e:  # noqa  (building an operand value is evaluation of a literal: no host exception there either)
+            return ('host', 'building the operand ' + POOL_SRC[i] + ' raises ' + type(e).__name__ + ": " + str(e)[:80])
         try:
             with core.time_limit(limit):
                 v = node.evaluate(self.env)
